@@ -558,8 +558,38 @@ fn helper_udiff_record(case: i64, alg: Algorithm, radius: usize, header: bool, o
         "ops":[],"rep_panic":rep.is_none(),"out_w_rep":bytes_json(&rep.unwrap_or_default())})
 }
 
+/// > 2^24 lines per side with one deleted / one inserted line (beyond that size the f32
+/// similarity ratio of such a diff is exactly 1.0): only the rendering and the ops are recorded
+fn huge_udiff_record(case: i64, rng: &mut Rng) -> Value {
+    let m = (1usize << 24) + 3 + 4 * rng.below(250);
+    let mut old = String::with_capacity(2 * m + 4);
+    old.push_str("x\n");
+    for _ in 0..m {
+        old.push_str("a\n");
+    }
+    let new = if rng.chance(1, 2) { old[2..].to_string() } else { format!("{}y\n", &old[2..]) };
+    let radius = rng.range(0, 3);
+    let r = rec::guarded(|| {
+        let diff = TextDiff::from_lines(&old, &new);
+        let mut ud = diff.unified_diff();
+        ud.context_radius(radius);
+        let mut w = vec![];
+        ud.to_writer(&mut w).unwrap();
+        (w, ud.to_string().into_bytes(), ops_json(diff.ops()))
+    });
+    match r {
+        Some((w, d, ops)) => json!({"ev":"udiff_huge","case":case,"radius":radius,"lines":m,"panic":false,
+            "out_w":bytes_json(&w),"out_d":bytes_json(&d),"ops":ops}),
+        None => json!({"ev":"udiff_huge","case":case,"radius":radius,"lines":m,"panic":true,"out_w":[],"out_d":[],"ops":[]}),
+    }
+}
+
 pub fn drive_c05(a: &Args, out: &mut Out) {
     let mut rng = Rng::new(a.num("seed", 1));
+    if a.get("huge", "1") == "1" {
+        let case = out.next_case();
+        out.emit(&huge_udiff_record(case, &mut rng));
+    }
     let pairs = line_text_pairs(&mut rng, a.thorough());
     for (i, (x, y)) in pairs.iter().enumerate().step_by(5) {
         if let (Ok(xs), Ok(ys)) = (std::str::from_utf8(x), std::str::from_utf8(y)) {
